@@ -10,6 +10,7 @@ import (
 	"fmt"
 	"go/ast"
 	"go/token"
+	"regexp"
 	"strconv"
 	"strings"
 
@@ -17,27 +18,29 @@ import (
 )
 
 type btr struct {
-	c        *ex.Ctx
-	locals   map[string]int
-	order    []string
-	loops    []string            // loop variable names, outermost first
-	alias    map[string]ast.Expr // `line := vt.activeScreen[row]` → the row expression
-	pmName   string              // name of the [][]int parameter, "" if none
-	brkable  []string            // innermost breakable statement: "for" | "switch"
-	bools    map[string]bool     // bool locals (held as 0/1)
-	seqName  string              // name of the ansi.Print parameter of print(), "" otherwise
-	glyph    string              // local holding the glyph cell of print()
-	cellVar  string              // local holding a copy of a cell (`ch := vt.activeScreen[r][c]`)
-	fnName   string              // the function being translated
-	tabsAcc  string              // local slice `tabs := []column{}`
-	tabVar   string              // value variable of `for _, ts := range vt.tabStop`
-	tabIdx   string              // index variable of `for i := len(vt.tabStop) - 1; i >= 0; i -= 1`
-	penVar   string              // local holding a copy of the pen (`pen := vt.cursor.Style`)
-	paramVar string              // value variable of `for _, param := range params`
-	stateVar string              // local of type cursorState (decsc/decrc)
-	oldVar   string              // resize(): local snapshot of the old primary screen (`primary := vt.primaryScreen`)
-	oldCell  string              // resize(): local copy of an old cell (`cell := primary[r][c]`)
-	unknown  int
+	c           *ex.Ctx
+	locals      map[string]int
+	order       []string
+	loops       []string            // loop variable names, outermost first
+	alias       map[string]ast.Expr // `line := vt.activeScreen[row]` → the row expression
+	pmName      string              // name of the [][]int parameter, "" if none
+	brkable     []string            // innermost breakable statement: "for" | "switch"
+	bools       map[string]bool     // bool locals (held as 0/1)
+	seqName     string              // name of the ansi.Print parameter of print(), "" otherwise
+	glyph       string              // local holding the glyph cell of print()
+	cellVar     string              // local holding a copy of a cell (`ch := vt.activeScreen[r][c]`)
+	fnName      string              // the function being translated
+	tabsAcc     string              // local slice `tabs := []column{}`
+	tabVar      string              // value variable of `for _, ts := range vt.tabStop`
+	tabIdx      string              // index variable of `for i := len(vt.tabStop) - 1; i >= 0; i -= 1`
+	penVar      string              // local holding a copy of the pen (`pen := vt.cursor.Style`)
+	paramVar    string              // value variable of `for _, param := range params`
+	stateVar    string              // local of type cursorState (decsc/decrc)
+	oldVar      string              // resize(): local snapshot of the old primary screen (`primary := vt.primaryScreen`)
+	oldCell     string              // resize(): local copy of an old cell (`cell := primary[r][c]`)
+	sgrIdx      string              // sgr(): index variable of `for i := 0; i < len(params); i += 1`
+	pmDefaulted bool                // sgr(): `if len(params) == 0 { params = [][]int{{0}} }` seen
+	unknown     int
 }
 
 var knownCallees = map[string]bool{"cuu": true, "cud": true, "ind": true, "nel": true, "ri": true, "lf": true,
@@ -133,8 +136,12 @@ func (t *btr) expr(e ast.Expr) (string, bool) {
 			return ".width", true
 		case fun == "vt.height" && len(x.Args) == 0:
 			return ".height", true
-		case fun == "len" && len(x.Args) == 1 && t.pmName != "" && t.src(x.Args[0]) == t.pmName:
+		case fun == "len" && len(x.Args) == 1 && t.pmName != "" && t.src(x.Args[0]) == t.pmName && t.sgrIdx == "":
 			return ".lenPm", true
+		case fun == "len" && len(x.Args) == 1 && t.sgrIdx != "" && t.src(x.Args[0]) == t.pmName+"["+t.sgrIdx+"]":
+			return ".lenCur", true
+		case fun == "len" && len(x.Args) == 1 && t.sgrIdx != "" && t.src(x.Args[0]) == t.pmName+"["+t.sgrIdx+":]":
+			return ".lenFrom", true
 		case fun == "len" && len(x.Args) == 1 && t.oldVar != "" && t.src(x.Args[0]) == t.oldVar:
 			return ".lenOld", true
 		case fun == "len" && len(x.Args) == 1 && t.oldVar != "" && t.src(x.Args[0]) == t.oldVar+"[0]":
@@ -151,6 +158,20 @@ func (t *btr) expr(e ast.Expr) (string, bool) {
 		}
 		if t.paramVar != "" && t.src(x) == t.paramVar+"[0]" {
 			return ".param0", true
+		}
+		// params[i][k], params[i+j][k] inside the loop of sgr()
+		if in, ok := x.X.(*ast.IndexExpr); ok && t.sgrIdx != "" && t.pmName != "" && t.src(in.X) == t.pmName {
+			if k, okk := intLit(x.Index); okk && k >= 0 {
+				if t.src(in.Index) == t.sgrIdx {
+					return fmt.Sprintf("(.cur %d)", k), true
+				}
+				if b, okb := in.Index.(*ast.BinaryExpr); okb && b.Op == token.ADD && t.src(b.X) == t.sgrIdx {
+					if j, okj := intLit(b.Y); okj && j >= 1 {
+						return fmt.Sprintf("(.nxt %d %d)", j, k), true
+					}
+				}
+			}
+			return "", false
 		}
 		// pm[k][0]
 		if in, ok := x.X.(*ast.IndexExpr); ok && t.pmName != "" && t.src(in.X) == t.pmName {
@@ -372,6 +393,9 @@ func (t *btr) forStmt(s *ast.ForStmt) string {
 	if r, ok := t.forS(s); ok {
 		return r
 	}
+	if r, ok := t.forSgr(s); ok {
+		return r
+	}
 	init, ok := s.Init.(*ast.AssignStmt)
 	if !ok || init.Tok != token.DEFINE || len(init.Lhs) != 1 || len(init.Rhs) != 1 || s.Cond == nil || s.Post == nil {
 		return t.unk(s)
@@ -584,6 +608,11 @@ func (t *btr) ifStmt(s *ast.IfStmt) string {
 			return p
 		}
 	}
+	if t.pmName != "" && len(t.loops) == 0 && t.sgrIdx == "" && !t.pmDefaulted &&
+		t.src(s) == "if len("+t.pmName+") == 0 { "+t.pmName+" = [][]int{{0}} }" {
+		t.pmDefaulted = true
+		return ".pmDefault0"
+	}
 	c, ok := t.cond(s.Cond)
 	if !ok {
 		return t.unk(s)
@@ -599,7 +628,7 @@ func (t *btr) ifStmt(s *ast.IfStmt) string {
 	default:
 		return t.unk(s)
 	}
-	return fmt.Sprintf("(.ite %s\n %s\n %s)", c, th, el)
+	return fmt.Sprintf("(%s %s\n %s\n %s)", iteCtor(c), c, th, el)
 }
 
 // switch → if-chain (Go switch clauses do not fall through; `fallthrough` and a `break` that
@@ -677,7 +706,7 @@ func (t *btr) switchStmt(s *ast.SwitchStmt) string {
 	_ = seenDefault
 	out := def
 	for i := len(cls) - 1; i >= 0; i-- {
-		out = fmt.Sprintf("(.ite %s\n %s\n %s)", cls[i].cond, cls[i].body, out)
+		out = fmt.Sprintf("(%s %s\n %s\n %s)", iteCtor(cls[i].cond), cls[i].cond, cls[i].body, out)
 	}
 	return out
 }
@@ -687,6 +716,15 @@ func (t *btr) assign(s *ast.AssignStmt) string {
 		return t.unk(s)
 	}
 	lhs, rhs := s.Lhs[0], s.Rhs[0]
+	if r, ok := t.penStmt(s); ok {
+		return r
+	}
+	if t.sgrIdx != "" && s.Tok == token.ADD_ASSIGN && t.src(lhs) == t.sgrIdx {
+		if c, ok := intLit(rhs); ok && c >= 0 {
+			return fmt.Sprintf("(.skipParams %d)", c)
+		}
+		return t.unk(s)
+	}
 	// vt.lastCol = true/false
 	if s.Tok == token.ASSIGN && t.src(lhs) == "vt.lastCol" {
 		switch t.src(rhs) {
@@ -1020,6 +1058,125 @@ func (t *btr) tabsRange(s *ast.ForStmt) (string, bool) {
 	return fmt.Sprintf("(.tabsAppendRange %d %d %d)", a, b, st), true
 }
 
+var iteChecked = regexp.MustCompile(`\(\.nxt |\(\.cur [1-9]`)
+
+// the constructor of an `if`: conditions that index into the parameter list relative to i are checked accesses
+func iteCtor(cond string) string {
+	if iteChecked.MatchString(cond) {
+		return ".iteP"
+	}
+	return ".ite"
+}
+
+// sgr(): for i := 0; i < len(params); i += 1 { … } — the body reads params only as params[i][k], params[i+j][k],
+// len(params[i]), len(params[i:]) and changes i only by `i += c`
+func (t *btr) forSgr(s *ast.ForStmt) (string, bool) {
+	if t.pmName == "" || t.sgrIdx != "" || len(t.loops) != 0 || t.tabVar != "" || t.tabIdx != "" || t.paramVar != "" || s.Cond == nil || s.Post == nil {
+		return "", false
+	}
+	init, ok := s.Init.(*ast.AssignStmt)
+	if !ok || init.Tok != token.DEFINE || len(init.Lhs) != 1 || len(init.Rhs) != 1 || t.src(init.Rhs[0]) != "0" {
+		return "", false
+	}
+	v, ok := init.Lhs[0].(*ast.Ident)
+	if !ok || v.Name == "_" {
+		return "", false
+	}
+	if _, shadow := t.locals[v.Name]; shadow {
+		return "", false
+	}
+	if t.src(s.Cond) != v.Name+" < len("+t.pmName+")" {
+		return "", false
+	}
+	if p := t.src(s.Post); p != v.Name+" += 1" && p != v.Name+"++" {
+		return "", false
+	}
+	// every use of i and of params inside the body is one of the relative forms (checked by expr(): anything else is unknown);
+	// i is assigned only by `i += c`
+	bad := false
+	ast.Inspect(s.Body, func(n ast.Node) bool {
+		switch a := n.(type) {
+		case *ast.AssignStmt:
+			for _, l := range a.Lhs {
+				if id, ok := l.(*ast.Ident); ok && (id.Name == t.pmName || (id.Name == v.Name && a.Tok != token.ADD_ASSIGN)) {
+					bad = true
+				}
+			}
+		case *ast.IncDecStmt:
+			if id, ok := a.X.(*ast.Ident); ok && id.Name == v.Name {
+				bad = true
+			}
+		}
+		return true
+	})
+	if bad {
+		return "", false
+	}
+	t.sgrIdx = v.Name
+	t.brkable = append(t.brkable, "for")
+	body := t.block(s.Body.List)
+	t.brkable = t.brkable[:len(t.brkable)-1]
+	t.sgrIdx = ""
+	return "(.forSgr\n " + body + ")", true
+}
+
+var attrNames = map[string]string{"vaxis.AttrBold": "attrBold", "vaxis.AttrDim": "attrDim", "vaxis.AttrItalic": "attrItalic",
+	"vaxis.AttrBlink": "attrBlink", "vaxis.AttrReverse": "attrReverse", "vaxis.AttrInvisible": "attrInvisible",
+	"vaxis.AttrStrikethrough": "attrStrikethrough"}
+var ulNames = map[string]string{"vaxis.UnderlineOff": "underlineOff", "vaxis.UnderlineSingle": "underlineSingle",
+	"vaxis.UnderlineDouble": "underlineDouble", "vaxis.UnderlineCurly": "underlineCurly", "vaxis.UnderlineDotted": "underlineDotted",
+	"vaxis.UnderlineDashed": "underlineDashed"}
+var penSlots = map[string]string{"vt.cursor.Foreground": ".fg", "vt.cursor.Background": ".bg", "vt.cursor.UnderlineColor": ".ul"}
+
+// uint8(e) → e
+func (t *btr) u8arg(e ast.Expr) (string, bool) {
+	c, ok := e.(*ast.CallExpr)
+	if !ok || t.src(c.Fun) != "uint8" || len(c.Args) != 1 {
+		return "", false
+	}
+	return t.expr(c.Args[0])
+}
+
+// the pen statements of sgr()
+func (t *btr) penStmt(s *ast.AssignStmt) (string, bool) {
+	if len(t.loops) != 0 {
+		return "", false
+	}
+	lhs, rhs := s.Lhs[0], s.Rhs[0]
+	l, r := t.src(lhs), t.src(rhs)
+	switch {
+	case l == "vt.cursor.Attribute" && s.Tok == token.OR_ASSIGN && attrNames[r] != "":
+		return "(.attrOn VaxisModel.Gen.TermModes." + attrNames[r] + ")", true
+	case l == "vt.cursor.Attribute" && s.Tok == token.AND_NOT_ASSIGN && attrNames[r] != "":
+		return "(.attrOff VaxisModel.Gen.TermModes." + attrNames[r] + ")", true
+	case l == "vt.cursor.Attribute" && s.Tok == token.ASSIGN && r == "0":
+		return ".attrClear", true
+	case l == "vt.cursor.UnderlineStyle" && s.Tok == token.ASSIGN && ulNames[r] != "":
+		return "(.setUl VaxisModel.Gen.TermModes." + ulNames[r] + ")", true
+	}
+	if slot, ok := penSlots[l]; ok && s.Tok == token.ASSIGN {
+		if r == "0" {
+			return "(.setCol " + slot + " .zero)", true
+		}
+		if c, ok := rhs.(*ast.CallExpr); ok {
+			switch {
+			case t.src(c.Fun) == "vaxis.IndexColor" && len(c.Args) == 1:
+				if a, ok := t.u8arg(c.Args[0]); ok {
+					return "(.setCol " + slot + " (.index " + a + "))", true
+				}
+			case t.src(c.Fun) == "vaxis.RGBColor" && len(c.Args) == 3:
+				a, ok1 := t.u8arg(c.Args[0])
+				b, ok2 := t.u8arg(c.Args[1])
+				d, ok3 := t.u8arg(c.Args[2])
+				if ok1 && ok2 && ok3 {
+					return "(.setCol " + slot + " (.rgb " + a + " " + b + " " + d + "))", true
+				}
+			}
+		}
+	}
+	return "", false
+}
+
 // a function-level loop over the local snapshot of the old primary screen:
 // for v := lo; v < len(primary) | len(primary[0]); v += 1 { function-level statements }
 func (t *btr) forS(s *ast.ForStmt) (string, bool) {
@@ -1200,6 +1357,11 @@ func (t *btr) stmt(s ast.Stmt) string {
 			return t.unk(s)
 		}
 		fun := t.src(call.Fun)
+		if fun == "log.Error" && len(call.Args) == 1 {
+			if _, isStr := call.Args[0].(*ast.BasicLit); isStr {
+				return ".logErr"
+			}
+		}
 		// fmt.Fprintf(vt.pty, …): a reply to the child, no state change (arguments must be in the language)
 		if fun == "fmt.Fprintf" && len(call.Args) >= 2 && t.src(call.Args[0]) == "vt.pty" && len(t.loops) == 0 {
 			if _, isStr := call.Args[1].(*ast.BasicLit); isStr {
@@ -1332,6 +1494,7 @@ func genBodies(c *ex.Ctx) {
 		{"c0.go", "bs"}, {"c0.go", "ht"}, {"c0.go", "lf"}, {"c0.go", "vt"}, {"c0.go", "ff"}, {"c0.go", "cr"},
 		{"term.go", "scrollUp"}, {"term.go", "scrollDown"}, {"term.go", "print"}, {"term.go", "resize"},
 		{"esc.go", "decsc"}, {"esc.go", "decrc"}, {"esc.go", "ris"}, {"esc.go", "setDefaultTabStops"},
+		{"sgr.go", "sgr"},
 		{"mode.go", "sm"}, {"mode.go", "rm"}, {"mode.go", "decset"}, {"mode.go", "decrst"}, {"mode.go", "decrqm"},
 	}
 	files := map[string]*ast.File{}
